@@ -210,18 +210,27 @@ class TaskScenario(ScenarioData):
 
         return all(successor.get("scheduled", self.scenarioIdx) for successor in successors)
 
-    def _getSuccessors(self) -> list[Any]:
+    def _getSuccessorEdges(self) -> list[tuple[Any, Any]]:
         """
-        Get all tasks that depend on this task (successors).
+        Get (successor task, dependency) pairs for all leaf tasks that depend on this task.
 
-        These are tasks T where T's dependencies include this task.
+        A task T is a successor if one of its dependencies - its own or one inherited
+        from an enclosing container - names this task or a container this task is part of.
         """
-        successors = []
+        targets = [self.property]
+        parent = self.property.parent
+        while parent:
+            targets.append(parent)
+            parent = parent.parent
+
+        edges: list[tuple[Any, Any]] = []
         for task in self.project.tasks:
-            if not task.leaf():
+            if not task.leaf() or task is self.property:
                 continue
-            deps = task.get("depends", self.scenarioIdx) or []
-            for dep in deps:
+            task_scenario = task.data[self.scenarioIdx] if task.data else None
+            if task_scenario is None:
+                continue
+            for dep in task_scenario.getAllDependencies():
                 if isinstance(dep, dict):
                     pred = dep.get("task")
                 elif hasattr(dep, "task"):
@@ -229,10 +238,30 @@ class TaskScenario(ScenarioData):
                 else:
                     pred = dep
 
-                if pred is self.property:
-                    successors.append(task)
-                    break
+                if any(pred is target for target in targets):
+                    # A task inside the container it depends on is not its own successor
+                    node = task.parent
+                    inside = False
+                    while node:
+                        if node is pred:
+                            inside = True
+                            break
+                        node = node.parent
+                    if not inside:
+                        edges.append((task, dep))
 
+        return edges
+
+    def _getSuccessors(self) -> list[Any]:
+        """
+        Get all tasks that depend on this task (successors).
+
+        These are tasks T where T's dependencies include this task.
+        """
+        successors: list[Any] = []
+        for task, _dep in self._getSuccessorEdges():
+            if not any(task is s for s in successors):
+                successors.append(task)
         return successors
 
     def _getSuccessorsWithMaxGap(self) -> list[tuple[Any, Any, Any]]:
@@ -568,10 +597,20 @@ class TaskScenario(ScenarioData):
                                     latest_end = pred_start
 
                     # Also check successors (finish-to-start deps)
-                    successors = self._getSuccessors()
-                    for successor in successors:
+                    for successor, dep in self._getSuccessorEdges():
                         succ_start = successor.get("start", self.scenarioIdx)
-                        if succ_start and succ_start < latest_end:
+                        if not succ_start:
+                            continue
+                        if isinstance(dep, dict):
+                            if dep.get("onstart", False):
+                                continue
+                            # The successor waits gapduration after our end
+                            if dep.get("gapduration"):
+                                from datetime import timedelta
+
+                                gap_hours = self._parse_duration(dep.get("gapduration"), calendar=True)
+                                succ_start = succ_start - timedelta(hours=gap_hours)
+                        if succ_start < latest_end:
                             latest_end = succ_start
 
                     end_date = latest_end
